@@ -38,7 +38,7 @@ type c08Witness struct {
 func init() {
 	core.Register(&core.Check{
 		ID:   "C08",
-		Rule: "part A (status selection): every non-empty subset of the response keys {1XX,200,201,2XX,4XX,default} (thorough: 12 keys incl. 3XX, 5XX, 404, 100, 204, 500: 4095 subsets), each entry accepting only its own index as JSON body, x 18 statuses (thorough: 30) x methods GET/HEAD x every index body x IncludeResponseStatus on/off: the accepted index identifies the selected entry (exact, then class, then default); unchecked statuses 301/304/307/308 and HEAD; part B (headers): a declared response header of primitive/array/object type, required or not, x present-valid / present-violating / unparsable / absent x MultiError; header names declared in 5 spellings (canonical, lower, mixed) by schema and by content; part C (content): declared vs undeclared content types, entries without schema, bodies valid / violating / syntactically broken (short and long) / with trailing bytes / of a type without decoder, readOnly/writeOnly/required object schemas x ExcludeWriteOnlyValidations / ExcludeResponseBody; after every call the response body must still be readable and byte-identical. Distinct = full case tuple; non-trivial = at least one entry is declared (always).",
+		Rule: "part A (status selection): every non-empty subset of the response keys {1XX,200,201,2XX,4XX,default} (thorough: 12 keys incl. 3XX, 5XX, 404, 100, 204, 500: 4095 subsets), each entry accepting only its own index as JSON body, x 18 statuses (thorough: 30) x methods GET/HEAD x every index body x IncludeResponseStatus on/off: the accepted index identifies the selected entry (exact, then class, then default); unchecked statuses 301/304/307/308 and HEAD; part B (headers): a declared response header of primitive/array/object type, required or not, x present-valid / present-violating / unparsable / absent x MultiError; header names declared in 5 spellings (canonical, lower, mixed) by schema and by content; part C (content): declared vs undeclared content types, entries without schema, bodies valid / violating / syntactically broken (short and long) / with trailing bytes / of a type without decoder, readOnly/writeOnly/required object schemas x ExcludeWriteOnlyValidations / ExcludeResponseBody; after every call the response body must still be readable and byte-identical. Distinct = full case tuple; non-trivial = at least one entry is declared (always). Header shapes include an array with minItems 1 sent with an empty value (must be rejected).",
 		Assumptions: []string{
 			"reference: exact status, then status class, then default; no entry passes unless IncludeResponseStatus; as-response reading: writeOnly forbidden and not required, readOnly allowed",
 			"trailing bytes after the first JSON value carry no verdict (decoder convention), only the readability assertion",
